@@ -11,7 +11,7 @@ from ..impl import dump as D
 from . import dbcommon as C
 
 ID = "C13"
-LEAN_MODULES = ["SqliteDissect.Properties.C13", "SqliteDissect.Properties.C06", "SqliteDissect.Properties.C13Calls"]
+LEAN_MODULES = ["SqliteDissect.Properties.C13", "SqliteDissect.Properties.C06", "SqliteDissect.Properties.C13Calls", "SqliteDissect.Properties.C13History"]
 TRANSLATORS = [callsites]
 TRUSTED_EXTRA = [callsites.TRUSTED]
 RULE = ("every combination of store_in_memory x strict_format_checking x identifier kind (path / file object) x "
